@@ -9,7 +9,7 @@ RULE = ("histories on a real Agent thread (InProcessCommunicationLayer) hosting 
         "computation, plus a second real agent whose Messaging forwards through the communication layer: 2-4 producer "
         "threads post 20-120 uniquely numbered messages each to random destinations with types in {10,15,20}, locally "
         "or through the remote agent (one history in eight over a real HttpCommunicationLayer on 127.0.0.1); in 60% of the histories the agent also runs a periodic action; once idle, 1-3 tail "
-        "messages are posted immediately before clean_shutdown(); one destination is registered late by the agent thread itself (earlier posts go "
+        "messages are posted immediately before clean_shutdown(); one destination is registered late, by the agent thread itself or (a third) by another thread (earlier posts go "
         "through the retry path); in half the histories the agent thread starts only after a backlog exists; then "
         "clean_shutdown()+join(); perturbation: switch interval 1e-5, random sleeps around post_msg / next_msg / handlers "
         "(thorough: sys.monitoring LINE yield injection); offline oracle over the recorded logical-clock history: "
@@ -60,13 +60,30 @@ def run_history(seed, lines=False):
         comps[d].start()
     late = Rec(late_name)
 
+    # in a third of the histories the late computation is added by the thread that asks for it (not the agent's thread),
+    # while the agent thread is running; it is started first so that it handles its messages as soon as it is hosted
+    foreign_add = rng.random() < 0.33
+    reg_lock = threading.Lock()
+    reg_done = [False]
+
+    def do_register():
+        with reg_lock:
+            if reg_done[0]:
+                return
+            reg_done[0] = True
+        clk.rec("register_begin", late_name)
+        if foreign_add:
+            late.start()
+            A.add_computation(late, publish=False)
+        else:
+            A.add_computation(late, publish=False)
+            A.run([late_name])
+        clk.rec("register_end", late_name)
+
     class Ctl(MessagePassingComputation):
         @register("register")
         def on_register(self, sender, msg, t):
-            clk.rec("register_begin", late_name)
-            A.add_computation(late, publish=False)
-            A.run([late_name])
-            clk.rec("register_end", late_name)
+            do_register()
 
     ctl = Ctl("ctl")
     A.add_computation(ctl, publish=False)
@@ -98,6 +115,15 @@ def run_history(seed, lines=False):
         return full, t
 
     mA.next_msg = next_msg
+    orig_reg_cb = mA._on_computation_registration
+
+    def reg_cb(evt, computation, agent):
+        r = orig_reg_cb(evt, computation, agent)
+        per.jitter()
+        time.sleep(rng.random() * 0.002)  # injected delay between the flush of the kept messages and what follows it
+        return r
+
+    mA._on_computation_registration = reg_cb
     start_late = rng.random() < 0.5
     register_after = rng.randint(5, 60)
     stop_flag = threading.Event()
@@ -127,7 +153,10 @@ def run_history(seed, lines=False):
             per.jitter()
             if pr["id"] == 0 and k == register_after:
                 clk.rec("register_request")
-                A._messaging.post_msg("s0_0", "ctl", Message("register", None), 10)
+                if foreign_add:
+                    do_register()
+                else:
+                    A._messaging.post_msg("s0_0", "ctl", Message("register", None), 10)
 
     A.discovery.register_computation("tail", "A", A.address, publish=False)
     periodic = rng.random() < 0.6
@@ -156,7 +185,10 @@ def run_history(seed, lines=False):
         # registration may not have been requested if producer 0 had few messages
         if not any(e[1] == "register_request" for e in clk.events):
             clk.rec("register_request")
-            A._messaging.post_msg(producers[0]["senders"][0], "ctl", Message("register", None), 10)
+            if foreign_add:
+                do_register()
+            else:
+                A._messaging.post_msg(producers[0]["senders"][0], "ctl", Message("register", None), 10)
         # let the agent take the registration into account before shutting down (bounded wait on logical progress)
         deadline = time.time() + 10
         while time.time() < deadline and not any(e[1] == "register_end" for e in clk.events):
@@ -194,7 +226,7 @@ def run_history(seed, lines=False):
             except Exception:
                 pass
     return {"events": clk.events, "errors": errors, "dests": dests + [late_name], "producers": producers,
-            "injected": per.injected, "line_events": per.line_events, "start_late": start_late, "periodic": periodic, "http": http}
+            "injected": per.injected, "line_events": per.line_events, "start_late": start_late, "periodic": periodic, "http": http, "foreign_add": foreign_add}
 
 
 def analyse(h):
@@ -285,7 +317,7 @@ def analyse(h):
     order_sig = common.stable_hash([e[2] for e in ev if e[1] == "handle"][:400] if False else [(e[4]) for e in ev if e[1] == "handle"])
     stats = {"posted": len(post), "handled": sum(len(v) for v in handle.values()), "deferred": deferred, "mixed_backlog_dequeues": mixed,
              "producers": len(h["producers"]), "order_sig": order_sig, "injected": h["injected"], "line_events": h["line_events"],
-             "http": 1 if h.get("http") else 0}
+             "http": 1 if h.get("http") else 0, "foreign_add": 1 if h.get("foreign_add") else 0}
     return P, stats
 
 
@@ -302,6 +334,7 @@ def worker(job):
                sample={"history_seed": hseed, "stats": {k: v for k, v in stats.items() if k != "order_sig"},
                        "first_events": [list(e) for e in h["events"][:25]]} if nontrivial and i % 8 == 0 else None)
         R.count("histories_over_http", stats.get("http", 0))
+        R.count("histories_with_late_computation_added_from_a_foreign_thread", stats.get("foreign_add", 0))
         for k in ("posted", "handled", "deferred", "mixed_backlog_dequeues", "injected", "line_events"):
             R.count("messages_" + k if k in ("posted", "handled", "deferred") else k, stats.get(k, 0))
         seen = set()
